@@ -50,7 +50,7 @@ impl Geom<LState> for LatGeom {
     }
     fn interp(&self, a: &LState, b: &LState, t: f64) -> LState {
         let d = self.topo.d(a.0, b.0);
-        let k = ((d as f64) * t - 1e-9).ceil() as i64;
+        let k = if t >= 1.0 - 1e-12 { d } else { (((d as f64) * t - 1e-9).ceil() as i64).min(d - 1) };
         LState(self.topo.geo(a.0, b.0, k.clamp(0, d)))
     }
     fn in_bounds(&self, s: &LState) -> bool {
